@@ -35,7 +35,9 @@ CONSTANTS Chains,      \* e.g. {"A","B"}
           Funds,       \* initial origin-token balance of each chain's user
           Fees,        \* relayer fee amounts (paid in the origin token)
           SendFrom,    \* set of <<chain, kind>> allowed to send (bounds the model; all pairs = unrestricted)
-          WithRotate   \* whether relayer re-registrations (Rotate) are part of the model (multiplies the state space)
+          WithRotate,  \* whether relayer re-registrations (Rotate) are part of the model (multiplies the state space)
+          LimWhere,    \* pairs <<chain, token>> whose limit governance acts on in the model (bounds the model; AllLimWhere = any)
+          LimitSets    \* parameter triples <<cap, max, min>> governance may try to enable as a time-based supply limit ({} = no limits)
 
 VARIABLES
   h,        \* h[c]        abstract height: number of commits of c
@@ -56,16 +58,33 @@ VARIABLES
   snaps,    \* snaps[c]    sequence: provable [commits, acks] per abstract height (index k+1)
   rot,      \* rot[c][d]  governance on c re-registered the relayer for chain d with another counterparty address
   badrel,   \* badrel[c]  triples whose acknowledgement, written by c, names that other address as relayer
+  lim,      \* lim[c][x]  time-based supply limit the endpoint of c keeps for a token: x = "own" (c's origin token, released
+            \*            when it comes back) or x = d (the wrapped token of d's origin, minted on arrival)
   sent,     \* every packet ever emitted (ghost; the relayer's knowledge)
   last      \* observation of the last step
 
-vars == <<h, seq, cseq, commits, receipts, acks, out, bind, ubal, wbal, rbal, held, status, clients, marks, snaps, rot, badrel, sent, last>>
-stateVars == <<h, seq, cseq, commits, receipts, acks, out, bind, ubal, wbal, rbal, held, status, clients, marks, snaps, rot, badrel, sent>>
+vars == <<h, seq, cseq, commits, receipts, acks, out, bind, ubal, wbal, rbal, held, status, clients, marks, snaps, rot, badrel, lim, sent, last>>
+stateVars == <<h, seq, cseq, commits, receipts, acks, out, bind, ubal, wbal, rbal, held, status, clients, marks, snaps, rot, badrel, lim, sent>>
 
 (* values for SendFrom (configuration files cannot write tuples) *)
 AllSendFrom == Chains \X {"fwd", "back"}
 OneWay      == {<<"A", "fwd">>, <<"B", "back">>}     \* A's token travels to B and back
 FwdFromA    == {<<"A", "fwd">>}                      \* only A sends (packets from B are those nested in receives)
+(* values for LimitSets *)
+NoLimits    == {}
+SomeLimits  == {<<5, 3, 2>>, <<4, 3, 2>>, <<3, 3, 2>>, <<5, 2, 2>>, <<5, 3, 0>>}    \* two admissible triples, three that are not
+OneLimit    == {<<4, 3, 2>>, <<3, 3, 2>>}
+AllLimWhere == Chains \X (Chains \cup {"own"})
+OnlyBA      == {<<"B", "A">>}                        \* B limits the wrapped token of A's origin
+
+(* Time-based supply limit of one token (endpoint.limits): while it is on, an arriving transfer of that token is refused *)
+(* unless min <= amount <= max and the amounts let in during the current period, this one included, stay BELOW cap;   *)
+(* stale = the period in which `used` was counted is over (the next transfer let in starts a new one).                 *)
+LimOff == [on |-> FALSE, cap |-> 0, max |-> 0, min |-> 0, used |-> 0, stale |-> FALSE]
+LimKeys(c) == {"own"} \cup (Chains \ {c})
+LimValid(t) == t[3] > 0 /\ t[2] > t[3] /\ t[1] > t[2]
+LimPass(L, a) == ~L.on \/ (a >= L.min /\ a <= L.max /\ (L.stale \/ L.used + a < L.cap))
+LimAfter(L, a) == IF ~L.on THEN L ELSE [L EXCEPT !.used = (IF L.stale THEN a ELSE @ + a), !.stale = FALSE]
 
 Others(c) == Chains \ {c}
 T(p)      == <<p.src, p.dst, p.seq>>
@@ -102,6 +121,7 @@ Init ==
   /\ marks = [c \in Chains |-> 0]
   /\ snaps = [c \in Chains |-> << [commits |-> {}, acks |-> {}] >>]
   /\ rot = [c \in Chains |-> [d \in Others(c) |-> FALSE]] /\ badrel = [c \in Chains |-> {}]
+  /\ lim = [c \in Chains |-> [x \in LimKeys(c) |-> LimOff]]
   /\ sent = {}
   /\ last = [act |-> "Init", res |-> "ok"]
 
@@ -135,7 +155,7 @@ SendEffCb(c, d, k, a, cl, f, cb) ==
             /\ UNCHANGED out
        ELSE /\ ubal' = [ubal EXCEPT ![c] = @ - f]          \* "none": a call-only packet, no tokens
             /\ UNCHANGED <<out, wbal, bind>>
-  /\ UNCHANGED <<h, receipts, acks, rbal, clients, marks, snaps, rot, badrel>>
+  /\ UNCHANGED <<h, receipts, acks, rbal, clients, marks, snaps, rot, badrel, lim>>
 
 SendEff(c, d, k, a, cl, f) == SendEffCb(c, d, k, a, cl, f, "none")
 
@@ -167,13 +187,33 @@ SendTwoEff(c, d1, d2, cl) ==
        /\ commits' = [commits EXCEPT ![c] = @ \cup {p1, p2}]
        /\ status' = [status EXCEPT ![c] = (T(p1) :> 0) @@ (T(p2) :> 0) @@ @]
        /\ sent' = sent \cup {p1, p2}
-       /\ UNCHANGED <<h, receipts, acks, out, bind, ubal, wbal, rbal, held, clients, marks, snaps, rot, badrel>>
+       /\ UNCHANGED <<h, receipts, acks, out, bind, ubal, wbal, rbal, held, clients, marks, snaps, rot, badrel, lim>>
 SendTwo(c, d1, d2, cl) == SendTwoEff(c, d1, d2, cl) /\ last' = [act |-> "SendTwo", res |-> Res(SendTwoOK(c, d1, d2)), chain |-> c, dst |-> d1, dst2 |-> d2, call |-> cl]
 
-CommitEff(c) ==
+CommitEff0(c) ==
   /\ h' = [h EXCEPT ![c] = @ + 1]
   /\ snaps' = [snaps EXCEPT ![c] = Append(@, [commits |-> commits[c], acks |-> acks[c]])]
   /\ UNCHANGED <<seq, cseq, commits, receipts, acks, out, bind, ubal, wbal, rbal, held, status, clients, marks, sent, rot, badrel>>
+CommitEff(c) == CommitEff0(c) /\ UNCHANGED lim
+
+(* a block of c whose time lies more than a limit period after the previous one: every period that was running is over *)
+ElapseEff(c) == CommitEff0(c) /\ lim' = [lim EXCEPT ![c] = [x \in LimKeys(c) |-> IF lim[c][x].on THEN [lim[c][x] EXCEPT !.stale = TRUE] ELSE lim[c][x]]]
+Elapse(c) == h[c] < MaxH /\ ElapseEff(c) /\ last' = [act |-> "Elapse", res |-> "ok", chain |-> c]
+
+(* Governance on c (EnableTimeBasedSupplyLimitProposal / Disable...): the endpoint refuses parameters that are not     *)
+(* min > 0, max > min, cap > max, a limit that is already on, and switching off one that is not on.                    *)
+EnableOK(c, x, t) == x \in LimKeys(c) /\ ~lim[c][x].on /\ LimValid(t)
+EnableEff(c, x, t) ==
+  IF ~EnableOK(c, x, t) THEN UNCHANGED stateVars
+  ELSE /\ lim' = [lim EXCEPT ![c][x] = [on |-> TRUE, cap |-> t[1], max |-> t[2], min |-> t[3], used |-> 0, stale |-> FALSE]]
+       /\ UNCHANGED <<h, seq, cseq, commits, receipts, acks, out, bind, ubal, wbal, rbal, held, status, clients, marks, snaps, rot, badrel, sent>>
+EnableLimit(c, x, t) == EnableEff(c, x, t) /\ last' = [act |-> "EnableLimit", res |-> Res(EnableOK(c, x, t)), chain |-> c, token |-> x, cap |-> t[1], max |-> t[2], min |-> t[3]]
+DisableOK(c, x) == x \in LimKeys(c) /\ lim[c][x].on
+DisableEff(c, x) ==
+  IF ~DisableOK(c, x) THEN UNCHANGED stateVars
+  ELSE /\ lim' = [lim EXCEPT ![c][x] = LimOff]
+       /\ UNCHANGED <<h, seq, cseq, commits, receipts, acks, out, bind, ubal, wbal, rbal, held, status, clients, marks, snaps, rot, badrel, sent>>
+DisableLimit(c, x) == DisableEff(c, x) /\ last' = [act |-> "DisableLimit", res |-> Res(DisableOK(c, x)), chain |-> c, token |-> x]
 
 Commit(c) ==
   /\ h[c] < MaxH
@@ -192,7 +232,7 @@ UpdateEff(c, d, k, s) ==
   LET cl == clients[c][d] IN
   IF ~UpdateOK(c, d, k, s) THEN UNCHANGED stateVars
   ELSE /\ clients' = [clients EXCEPT ![c][d] = [latest |-> Max({cl.latest, k}), cons |-> cl.cons \cup {k}]]
-       /\ UNCHANGED <<h, seq, cseq, commits, receipts, acks, out, bind, ubal, wbal, rbal, held, status, marks, snaps, sent, rot, badrel>>
+       /\ UNCHANGED <<h, seq, cseq, commits, receipts, acks, out, bind, ubal, wbal, rbal, held, status, marks, snaps, sent, rot, badrel, lim>>
 
 UpdateClient(c, d, k, s) ==
   /\ UpdateEff(c, d, k, s)
@@ -203,7 +243,7 @@ UpdateClient(c, d, k, s) ==
 (* nothing but the client changes - in particular no receipt, acknowledgement, commitment or sequence.          *)
 RetoggleEff(c, d) ==
   /\ clients' = [clients EXCEPT ![c][d] = [latest |-> h[d], cons |-> {h[d]}]]
-  /\ UNCHANGED <<h, seq, cseq, commits, receipts, acks, out, bind, ubal, wbal, rbal, held, status, marks, snaps, sent, rot, badrel>>
+  /\ UNCHANGED <<h, seq, cseq, commits, receipts, acks, out, bind, ubal, wbal, rbal, held, status, marks, snaps, sent, rot, badrel, lim>>
 Retoggle(c, d) == RetoggleEff(c, d) /\ last' = [act |-> "Retoggle", res |-> "ok", chain |-> c, counter |-> d]
 
 (* The user of c calls a contract of its own that emits a log with the topic and data of the packet contract's   *)
@@ -221,7 +261,7 @@ NewClient(c, d, nm) == NewClientEff(c, d, nm) /\ last' = [act |-> "NewClient", r
 (* that name the previous one are no longer payable on c.                                                            *)
 RotateEff(c, d) ==
   /\ rot' = [rot EXCEPT ![c][d] = ~@]
-  /\ UNCHANGED <<h, seq, cseq, commits, receipts, acks, out, bind, ubal, wbal, rbal, held, status, clients, marks, snaps, badrel, sent>>
+  /\ UNCHANGED <<h, seq, cseq, commits, receipts, acks, out, bind, ubal, wbal, rbal, held, status, clients, marks, snaps, badrel, sent, lim>>
 Rotate(c, d) == RotateEff(c, d) /\ last' = [act |-> "Rotate", res |-> "ok", chain |-> c, counter |-> d]
 
 (* the packet a relayer message names after alteration alt of sent packet p *)
@@ -257,12 +297,16 @@ RecvEff(c, p, alt, k, pf, s) ==
   IN IF ~RecvAccept(c, q, k, pf, s) THEN UNCHANGED stateVars
      ELSE
      LET d    == q.src
-         code == CallCode(q)
+         lk   == IF q.kind = "fwd" THEN d ELSE "own"                 \* the token that arrives: d's wrapped one, or c's own coming back
+         pass == q.kind \notin {"fwd", "back"} \/ LimPass(lim[c][lk], q.amt)
+         code == IF pass THEN CallCode(q) ELSE 2                     \* endpoint: the limit refuses the transfer, the call is not made
          okx  == code = 0
      IN
+     (* what the limit let in counts only if the whole callback succeeded *)
+     /\ lim' = IF okx /\ q.kind \in {"fwd", "back"} THEN [lim EXCEPT ![c][lk] = LimAfter(@, q.amt)] ELSE lim
      /\ receipts' = [receipts EXCEPT ![c] = @ \cup {T(q)}]
      /\ acks' = [acks EXCEPT ![c] = @ \cup {[t |-> T(q), code |-> code]}]
-     /\ IF Nested(q) THEN UNCHANGED <<wbal, bind, ubal, out>>     \* minted to the agent and burnt by it
+     /\ IF Nested(q) /\ okx THEN UNCHANGED <<wbal, bind, ubal, out>>     \* minted to the agent and burnt by it
         ELSE IF okx /\ q.kind = "fwd"
           THEN /\ wbal' = [wbal EXCEPT ![c][d] = @ + q.amt]
                /\ bind' = [bind EXCEPT ![c][d] = @ + q.amt]
@@ -276,7 +320,7 @@ RecvEff(c, p, alt, k, pf, s) ==
      /\ badrel' = [badrel EXCEPT ![c] = IF rot[c][d] THEN @ \cup {T(q)} ELSE @]     \* the ack names the address c's registry holds for chain d
      (* a send nested in the receive (agent): the tokens minted to the agent are burnt again and travel back as packet p2, *)
      (* numbered and committed by the same rules as any send (CallEVM -> post-transaction hook -> SendPacket)             *)
-     /\ IF Nested(q)
+     /\ IF Nested(q) /\ okx
           THEN LET p2 == NestedPacket(c, q) IN
                /\ seq'  = [seq  EXCEPT ![c][d] = @ + 1]
                /\ cseq' = [cseq EXCEPT ![c][d] = @ + 1]
@@ -328,7 +372,7 @@ AckEff(c, p, a, alt, aalt, k, pf, s) ==
                /\ bind' = [bind EXCEPT ![c][d] = @ + q.amt]
                /\ UNCHANGED <<ubal, out>>
         ELSE UNCHANGED <<wbal, bind, ubal, out>>
-     /\ UNCHANGED <<h, seq, cseq, receipts, acks, clients, marks, snaps, sent, rot, badrel>>
+     /\ UNCHANGED <<h, seq, cseq, receipts, acks, clients, marks, snaps, sent, rot, badrel, lim>>
 
 Ack(c, p, a, alt, aalt, k, pf, s) ==
   /\ AckEff(c, p, a, alt, aalt, k, pf, s)
@@ -353,6 +397,9 @@ Next ==
   \/ \E c \in Chains : \E d \in Others(c), nm \in {"prefix", "ext"} : NewClient(c, d, nm)
   \/ \E c \in Chains : \E d \in Others(c), a \in Amts : SendFake(c, d, a)
   \/ \E c \in Chains : \E d \in Others(c) : WithRotate /\ Rotate(c, d)
+  \/ \E c \in Chains : \E x \in LimKeys(c), t \in LimitSets : <<c, x>> \in LimWhere /\ EnableLimit(c, x, t)
+  \/ \E c \in Chains : \E x \in LimKeys(c) : LimitSets # {} /\ <<c, x>> \in LimWhere /\ DisableLimit(c, x)
+  \/ \E c \in Chains : LimitSets # {} /\ (\E x \in LimKeys(c) : lim[c][x].on /\ ~lim[c][x].stale) /\ Elapse(c)
   \/ \E p \in sent, alt \in Alts, k \in 0..MaxH, pf \in Proofs, s \in Signers : Recv(p.dst, p, alt, k, pf, s)
   \/ \E p \in sent, alt \in Alts, aalt \in AckAlts, k \in 0..MaxH, pf \in Proofs, s \in Signers :
         Ack(p.src, p, AckCode(WrittenCode(p), aalt), alt, aalt, k, pf, s)
@@ -413,4 +460,11 @@ RejectChangesNothing == [][last'.res = "err" => UNCHANGED stateVars]_vars
 
 TypeOK == /\ \A c \in Chains : (ubal[c] >= 0 /\ rbal[c] >= 0 /\ held[c] >= 0)
           /\ \A c \in Chains : \A d \in Others(c) : (out[c][d] >= 0 /\ bind[c][d] >= 0 /\ wbal[c][d] >= 0)
+          /\ \A c \in Chains : \A x \in LimKeys(c) : (lim[c][x].on \/ lim[c][x] = LimOff)
+
+(* what a limit let in during one period stays below its cap; a limit that is on has admissible parameters *)
+LimitBound == \A c \in Chains : \A x \in LimKeys(c) : lim[c][x].on =>
+                 (lim[c][x].used >= 0 /\ lim[c][x].used < lim[c][x].cap /\ LimValid(<<lim[c][x].cap, lim[c][x].max, lim[c][x].min>>))
+(* limits change only by governance, by a transfer let in, or by time *)
+LimitSteps == [][lim' # lim => last'.act \in {"EnableLimit", "DisableLimit", "Elapse", "Recv"} /\ last'.res = "ok"]_vars
 =============================================================================
